@@ -27,7 +27,8 @@ RULE = ("cases = (table text, flavor, setup types): tables of 1-8 items (command
         "(lines dropped, duplicated, inserted; wrong arity; operators outside the property's grammar); every condition "
         "also on its own through VersionParser; exhaustive small enumerations (all chain shapes of <= 3 branches with "
         "empty / non-empty branches and else; all conditions of depth <= 1, thorough: <= 2, over 2 flavors x 2 types; all "
-        "argument texts of length <= 5, thorough: <= 7, over the alphabet {a, quote, backslash, comma, blank, closing parenthesis}); each "
+        "argument texts of length <= 5, thorough: <= 7, over the alphabet {a, quote, backslash, comma, blank, closing parenthesis}; "
+        "all declareOptions argument texts of length <= 4, thorough: <= 5, over {k, v, =, blank, comma, quote}); each "
         "table is evaluated for every flavor it mentions plus an unmentioned one, with TYPE absent / one / two types; "
         "chains of 6-9 branches (3 %), declareOptions written as options (k=v, k = v, quoted) whose pairs the generator "
         "knows; a lone quoted argument with escaped quotes / commas / runs of blanks, padded or not, escaped quotes next to "
@@ -956,7 +957,7 @@ def evaluate(ctx, cases):
         mo = model_out(c, answers[s:s + n])
         inp = public(c)
         feats = set(c["features"])
-        nontrivial = bool(feats & {"chain", "legacy", "quoted_arg", "enumerated_conds", "enumerated_args"})
+        nontrivial = bool(feats & {"chain", "legacy", "quoted_arg", "enumerated_conds", "enumerated_args", "enumerated_opts"})
         ctx.hist("kind=" + c["kind"])
         for f in c["features"]:
             ctx.hist("feature=" + f)
@@ -1096,6 +1097,23 @@ def enum_cond_cases(max_depth, from_level=0):
 
 
 ARG_ALPHABET = ["a", '"', "\\", ",", " ", ")"]
+
+
+OPT_ALPHABET = ["k", "v", "=", " ", ",", '"']
+
+
+def enum_opt_cases(max_len, min_len=1):
+    """Exhaustive small enumeration of option texts: every string over {k v = blank , quote} up to a length as the
+    argument text of one `declareOptions(...)` line, one table each (correspondence of getDeclareOptions: tokeniser,
+    split at `=`, pairing, dictionary; no denotation is claimed)."""
+    import itertools
+    env = [{"flavor": "Linux", "types": []}]
+    out = []
+    for n in range(min_len, max_len + 1):
+        for t in itertools.product(OPT_ALPHABET, repeat=n):
+            out.append({"kind": "opts_enum", "text": "declareOptions(" + "".join(t) + ")\n", "envs": env, "expect": None, "conds": [],
+                        "features": ["enumerated_opts"]})
+    return out
 
 
 def enum_arg_cases(max_len, per_table=100, min_len=0):
@@ -1371,9 +1389,11 @@ def run(ctx):
     evaluate(ctx, ec)
     ea = enum_arg_cases(5)
     ctx.hist("enumerated_arg_tables", len(ea))
+    eo = enum_opt_cases(4)
+    ctx.hist("enumerated_option_texts", len(eo))
     half = (len(ea) + 1) // 2
     generated = 0
-    for part in (None, ea[:half], None, ea[half:]):        # generated tables and enumerated argument texts take turns
+    for part in (None, ea[:half] + eo[::2], None, ea[half:] + eo[1::2]):   # generated tables and enumerated texts take turns
         if ctx.out_of_time():
             break
         if part is None:
@@ -1393,7 +1413,7 @@ def run(ctx):
         return
     # the enlarged budget
     ec2 = enum_cond_cases(2, from_level=2)
-    ea2 = enum_arg_cases(7, min_len=6)
+    ea2 = enum_arg_cases(7, min_len=6) + enum_opt_cases(5, min_len=5)
     ctx.hist("enumerated_cond_batches", len(ec2))
     ctx.hist("enumerated_arg_tables", len(ea2))
 
@@ -1424,7 +1444,7 @@ def run(ctx):
                 evaluate_setuptype(ctx, batch)
                 continue
             evaluate(ctx, batch)
-            if batch and batch[0]["kind"] not in ("conds", "args_enum"):
+            if batch and batch[0]["kind"] not in ("conds", "args_enum", "opts_enum"):
                 generated += len(batch)
     check_distribution(ctx, generated)
 
